@@ -476,3 +476,28 @@ MUTANTS += [
      "        asset_id = int(child.attrib['id'])",
      "        asset_id = abs(int(child.attrib['id']))", 'negative ids are made positive'),
 ]
+
+# ---- determinism / inputs (C16) ---------------------------------------------------
+MUTANTS += [
+    ('gen_steps_via_set', ['C16'], AG,
+     "            for attack_step_name, attack_step_attribs in attack_steps.items():",
+     "            for attack_step_name in set(attack_steps):\n                attack_step_attribs = attack_steps[attack_step_name]",
+     'steps of an asset are visited in set order: node ids depend on PYTHONHASHSEED'),
+    ('gen_assets_sorted_by_hash', ['C16'], AG,
+     "        for asset in self.model.assets:\n\n            logger.debug(\n                'Generating attack steps for asset %s which is of class %s.',",
+     "        for asset in sorted(self.model.assets, key=lambda a: hash(str(a.name))):\n\n            logger.debug(\n                'Generating attack steps for asset %s which is of class %s.',",
+     'assets are visited in hash order of their names'),
+    ('analysis_writes_model', ['C16'], AP,
+     """            node.is_viable = node.defense_status != 1.0
+        case 'or':""",
+     """            node.is_viable = node.defense_status != 1.0
+            if node.asset is not None and not node.is_viable:
+                setattr(node.asset, node.name, 1)
+        case 'or':""", 'the analysis normalises the defense value on the model asset (1.0 -> 1): benign for _to_dict'),
+    ('attach_marks_model_attacker', ['C16'], AG,
+     """            attacker.entry_points = list(attacker.reached_attack_steps)""",
+     """            attacker.entry_points = list(attacker.reached_attack_steps)
+            if not attacker.entry_points:
+                attacker_info.name = attacker_info.name + ' (no entry points)'""",
+     'attach_attackers renames model attackers that have no valid entry point'),
+]
